@@ -672,7 +672,7 @@ func packagePrepareWalkFn(root string, ignoreRules *ignorefiles.Ruleset) filepat
 		if err != nil {
 			return fmt.Errorf("invalid .terraformignore rules: %#w", err)
 		}
-		if ignored.Excluded {
+		if ignored.Excluded && !info.IsDir() {
 			err := os.RemoveAll(absPath)
 			if err != nil {
 				return fmt.Errorf("failed to remove ignored file %s: %s", relPath, err)
@@ -681,23 +681,25 @@ func packagePrepareWalkFn(root string, ignoreRules *ignorefiles.Ruleset) filepat
 		}
 
 		// For directories we also need to check with a path separator on the
-		// end, which ignores entire subtrees.
-		//
-		// TODO: What about exclusion rules that follow a matching directory?
-		// Example:
-		//   /logs
-		//   !/logs/production/*
+		// end, which ignores entire subtrees. A whole subtree may only be
+		// removed when the matching rule is "dominating", meaning that no
+		// later negation rule could re-include something below it; otherwise
+		// (and when only the directory's own name is excluded) we keep
+		// walking so that each file is judged by its own path, as Pack does.
 		if info.IsDir() {
-			ignored, err := ignoreRules.Excludes(relPath + string(os.PathSeparator))
+			ignoredBelow, err := ignoreRules.Excludes(relPath + string(os.PathSeparator))
 			if err != nil {
 				return fmt.Errorf("invalid .terraformignore rules: %#w", err)
 			}
-			if ignored.Excluded {
+			if ignoredBelow.Excluded && ignoredBelow.Dominating {
 				err := os.RemoveAll(absPath)
 				if err != nil {
 					return fmt.Errorf("failed to remove ignored file %s: %s", relPath, err)
 				}
 				return filepath.SkipDir
+			}
+			if ignored.Excluded || ignoredBelow.Excluded {
+				return nil
 			}
 		}
 
